@@ -11,6 +11,7 @@ package main
 
 import (
 	"context"
+	"time"
 	"database/sql"
 	"encoding/json"
 	"errors"
@@ -30,16 +31,21 @@ import (
 	"verifharness/recdrv"
 )
 
-// ---------------------------------------------------------------- models (no time columns)
+// ---------------------------------------------------------------- models
+// Time columns are tracked by gorm (CreatedAt / UpdatedAt / autoCreateTime / autoUpdateTime in
+// seconds, milli- and nanoseconds, soft delete); NowFunc is pinned, so dumps are reproducible.
 
 type Company struct {
-	ID   uint `gorm:"primaryKey"`
-	Name string
+	ID        uint `gorm:"primaryKey"`
+	Name      string
+	CreatedS  int64 `gorm:"autoCreateTime"`
+	UpdatedMs int64 `gorm:"autoUpdateTime:milli"`
 }
 type Profile struct {
-	ID     uint `gorm:"primaryKey"`
-	UserID uint
-	Bio    string
+	ID        uint `gorm:"primaryKey"`
+	UserID    uint
+	Bio       string
+	UpdatedNs int64 `gorm:"autoUpdateTime:nano"`
 }
 type Toy struct {
 	ID        uint `gorm:"primaryKey"`
@@ -47,29 +53,58 @@ type Toy struct {
 	OwnerID   uint
 	OwnerType string
 }
+type Collar struct { // has-one held BY VALUE
+	ID    uint `gorm:"primaryKey"`
+	PetID uint
+	Tag   string
+}
 type Pet struct {
-	ID     uint `gorm:"primaryKey"`
-	UserID uint
-	Name   string
-	Toys   []Toy `gorm:"polymorphic:Owner"`
+	ID        uint `gorm:"primaryKey"`
+	UserID    uint
+	Name      string
+	Kind      string `gorm:"default:dog"` // database default value
+	Toys      []Toy  `gorm:"polymorphic:Owner"`
+	Collar    Collar
+	DeletedAt gorm.DeletedAt // soft delete: Delete becomes UPDATE unless Unscoped
 }
 type Language struct {
 	ID   uint `gorm:"primaryKey"`
 	Code string
 }
+type Badge struct { // polymorphic has-one
+	ID         uint `gorm:"primaryKey"`
+	Label      string
+	HolderID   uint
+	HolderType string
+}
+type Note struct { // has-many held as POINTERS
+	ID     uint `gorm:"primaryKey"`
+	UserID uint
+	Text   string
+}
 type User struct {
 	ID        uint `gorm:"primaryKey"`
 	Name      string
 	Age       int
+	CreatedAt time.Time
+	UpdatedAt time.Time
 	CompanyID *uint
-	Company   *Company
+	Company   *Company // belongs-to by pointer
+	HomeID    *uint
+	Home      Company // belongs-to by value
 	Profile   *Profile
+	Badge     *Badge `gorm:"polymorphic:Holder"`
 	Pets      []Pet
+	Notes     []*Note
 	Languages []Language `gorm:"many2many:user_languages"`
 	Toys      []Toy      `gorm:"polymorphic:Owner"`
 }
 
-var tables = []string{"companies", "users", "profiles", "pets", "toys", "languages", "user_languages"}
+var pinnedNow = time.Date(2024, 5, 6, 7, 8, 9, 123456789, time.UTC)
+
+func nowFunc() time.Time { return pinnedNow }
+
+var tables = []string{"companies", "users", "profiles", "pets", "collars", "toys", "languages", "user_languages", "badges", "notes"}
 
 // hooks: every invocation is an event; the hfault-th invocation returns errHook
 var (
@@ -128,16 +163,21 @@ type ToySpec struct {
 	Name string `json:"name"`
 }
 type PetSpec struct {
-	ID   uint      `json:"id,omitempty"`
-	Name string    `json:"name"`
-	Toys []ToySpec `json:"toys,omitempty"`
+	ID     uint      `json:"id,omitempty"`
+	Name   string    `json:"name"`
+	Kind   string    `json:"kind,omitempty"` // "" = the database default
+	Toys   []ToySpec `json:"toys,omitempty"`
+	Collar *ToySpec  `json:"collar,omitempty"` // id+tag
 }
 type UserSpec struct {
 	ID      uint      `json:"id,omitempty"`
 	Name    string    `json:"name"`
 	Age     int       `json:"age,omitempty"`
 	Company *ToySpec  `json:"company,omitempty"` // id+name
+	Home    *ToySpec  `json:"home,omitempty"`    // id+name (belongs-to by value)
 	Profile *ToySpec  `json:"profile,omitempty"` // id+bio
+	Badge   *ToySpec  `json:"badge,omitempty"`   // id+label (polymorphic has-one)
+	Notes   []ToySpec `json:"notes,omitempty"`   // id+text (has-many of pointers)
 	Pets    []PetSpec `json:"pets,omitempty"`
 	Langs   []ToySpec `json:"langs,omitempty"` // id+code
 	Toys    []ToySpec `json:"toys,omitempty"`
@@ -169,11 +209,23 @@ func buildUser(s UserSpec) User {
 	if s.Company != nil {
 		u.Company = &Company{ID: s.Company.ID, Name: s.Company.Name}
 	}
+	if s.Home != nil {
+		u.Home = Company{ID: s.Home.ID, Name: s.Home.Name}
+	}
 	if s.Profile != nil {
 		u.Profile = &Profile{ID: s.Profile.ID, Bio: s.Profile.Name}
 	}
+	if s.Badge != nil {
+		u.Badge = &Badge{ID: s.Badge.ID, Label: s.Badge.Name}
+	}
+	for _, n := range s.Notes {
+		u.Notes = append(u.Notes, &Note{ID: n.ID, Text: n.Name})
+	}
 	for _, p := range s.Pets {
-		pet := Pet{ID: p.ID, Name: p.Name}
+		pet := Pet{ID: p.ID, Name: p.Name, Kind: p.Kind}
+		if p.Collar != nil {
+			pet.Collar = Collar{ID: p.Collar.ID, Tag: p.Collar.Name}
+		}
 		for _, t := range p.Toys {
 			pet.Toys = append(pet.Toys, Toy{ID: t.ID, Name: t.Name})
 		}
@@ -224,10 +276,10 @@ func getEnv() *env {
 	dsn := "file:" + path + "?_busy_timeout=2000&_synchronous=0&_journal_mode=MEMORY"
 	sqlDB, rec := recdrv.Open(dsn)
 	db := openHandle(sqlDB)
-	lib.Must(db.AutoMigrate(&Company{}, &User{}, &Profile{}, &Pet{}, &Toy{}, &Language{}))
+	lib.Must(db.AutoMigrate(&Company{}, &User{}, &Profile{}, &Pet{}, &Collar{}, &Toy{}, &Language{}, &Badge{}, &Note{}))
 	fresh, err := sql.Open("c05fresh", dsn)
 	lib.Must(err)
-	plain, err := gorm.Open(sqlite.Dialector{Conn: fresh}, &gorm.Config{Logger: logger.Discard})
+	plain, err := gorm.Open(sqlite.Dialector{Conn: fresh}, &gorm.Config{Logger: logger.Discard, NowFunc: nowFunc})
 	lib.Must(err)
 	theEnv = &env{db: db, plain: plain, rec: rec, sqlDB: sqlDB, fresh: fresh}
 	return theEnv
@@ -236,7 +288,7 @@ func getEnv() *env {
 // openHandle opens a new *gorm.DB (default settings) on the pool. Every run gets its own, so the
 // history of a handle is exactly the Pre steps of the case.
 func openHandle(sqlDB *sql.DB) *gorm.DB {
-	db, err := gorm.Open(sqlite.Dialector{Conn: sqlDB}, &gorm.Config{Logger: logger.Discard})
+	db, err := gorm.Open(sqlite.Dialector{Conn: sqlDB}, &gorm.Config{Logger: logger.Discard, NowFunc: nowFunc})
 	lib.Must(err)
 	// boundaries of the callbacks that invoke hooks (public callback API; the markers do nothing else)
 	lib.Must(db.Callback().Create().Before("gorm:before_create").Register("verif:before_create", mark("before_create")))
@@ -479,6 +531,9 @@ func seedCounts(seed []UserSpec) (users, companies, langs, pets, toys, profiles 
 		if u.Company != nil {
 			companies++
 		}
+		if u.Home != nil {
+			companies++
+		}
 		if u.Profile != nil {
 			profiles++
 		}
@@ -511,11 +566,26 @@ func (g *gen) user(existing bool) UserSpec {
 			u.Company.ID = uint(r.Range(1, int(nc)))
 		}
 	}
+	if r.Chance(1, 4) {
+		u.Home = &ToySpec{Name: g.name("h")}
+	}
 	if r.Chance(2, 5) {
 		u.Profile = &ToySpec{Name: g.name("bio")}
 	}
+	if r.Chance(1, 4) {
+		u.Badge = &ToySpec{Name: g.name("b")}
+	}
+	for i := r.Intn(3); i > 0 && r.Chance(1, 3); i-- {
+		u.Notes = append(u.Notes, ToySpec{Name: g.name("n")})
+	}
 	for i := r.Pick3(); i > 0; i-- {
 		p := PetSpec{Name: g.name("p"), Toys: g.toys(2)}
+		if r.Bool() {
+			p.Kind = "cat"
+		}
+		if r.Chance(1, 3) {
+			p.Collar = &ToySpec{Name: g.name("k")}
+		}
 		if existing && np > 0 && r.Chance(1, 4) {
 			p.ID = uint(r.Range(1, int(np)))
 		}
@@ -570,6 +640,7 @@ func (g *gen) input() Input {
 			u.ID = 40 + uint(r.Intn(5)) // preset key of a missing row: UPDATE, then INSERT
 			if r.Chance(2, 3) {          // keep out of the known finding: no associations
 				u.Company, u.Profile, u.Pets, u.Langs, u.Toys = nil, nil, nil, nil, nil
+				u.Home, u.Badge, u.Notes = nil, nil, nil
 			}
 		}
 		op.Users = []UserSpec{u}
@@ -632,7 +703,7 @@ func samePrefix(free, got []Ev) bool {
 }
 
 func hasAssoc(u UserSpec) bool {
-	return u.Company != nil || u.Profile != nil || len(u.Pets) > 0 || len(u.Langs) > 0 || len(u.Toys) > 0
+	return u.Company != nil || u.Home != nil || u.Profile != nil || u.Badge != nil || len(u.Notes) > 0 || len(u.Pets) > 0 || len(u.Langs) > 0 || len(u.Toys) > 0
 }
 
 const sigSaveTwoTx = "save-preset-key-missing-row-with-associations"
